@@ -169,7 +169,9 @@ def run_direct(ctx: ShardCtx, res: ShardResult, mon: Monitor) -> None:
     opts = Opts()
     refs = [StreamTimingReference('v', 9600, 10, 960, 240), StreamTimingReference('a', 1763328, 10, 176332, 44100),
             StreamTimingReference('t', 8000, 4, 2000, 200), StreamTimingReference('x', 90000 * 7, 3, 90000 * 2, 90000),
-            StreamTimingReference('y', 1001 * 30, 15, 2002, 1000)]
+            StreamTimingReference('y', 1001 * 30, 15, 2002, 1000),
+            # short segments (low-latency packaging): 0.2 s and 0.5 s
+            StreamTimingReference('z', 2400, 50, 48, 240), StreamTimingReference('w', 9000 * 20, 20, 45000, 90000)]
     n = ctx.scale(40000, 1200000)
     for i in range(n):
         ref = rng.choice(refs)
@@ -218,7 +220,14 @@ def run_direct(ctx: ShardCtx, res: ShardResult, mon: Monitor) -> None:
             mup = None
         o = opts.make(params)
         mon.context = {'params': params, 'ref': [ref.media_duration, ref.num_media_segments, ref.segment_duration, ref.timescale]}
-        t = DashTiming(now, ref, o)
+        try:
+            t = DashTiming(now, ref, o)
+        except Exception as err:
+            res.evaluations += 1
+            res.violation(f'live-timing-construction-raises-{type(err).__name__}',
+                          f'DashTiming(now={now.isoformat()}, reference segment {ref.segment_duration}/{ref.timescale} s, '
+                          f'{params}) raised {err!r}', {'timing_case': {'now': now.isoformat(), **mon.context}})
+            continue
         res.evaluations += 1
         young = (now - t.availabilityStartTime) < datetime.timedelta(seconds=120) if t.availabilityStartTime else False
         cal = 'first-minute' if (now.hour == 0 and now.minute == 0) else ('day1' if now.day == 1 else 'mid')
